@@ -260,26 +260,81 @@ def validate_traces(module, cfg, trace_files, timeout=900, heap="3g", par=None, 
 
 # ---------------------------------------------------------------- harness runs
 
-def run_harness(engine, scen_file, out_prefix, workers=None, extra=(), timeout=1800, tags="verif", env=None):
-    """vrun <engine> -in scen.ndjson -out prefix -workers N  -> list of trace files"""
+def _run_harness_once(engine, scen_file, out_prefix, w, extra, timeout, tags, env):
     binp = build_harness(tags)
-    w = workers or WORKERS
     cmd = [binp, engine, "-in", scen_file, "-out", out_prefix, "-workers", str(w), "-dir", subdir("run." + engine)] + list(extra)
     e = dict(os.environ)
     e["GOLOG_LOG_LEVEL"] = "fatal"
     if env:
         e.update(env)
+    for i in range(64):
+        for suf in (".ndjson", ".cur"):
+            try:
+                os.unlink(out_prefix + ".%d%s" % (i, suf))
+            except OSError:
+                pass
     try:
         p = subprocess.run(cmd, env=e, stdout=subprocess.PIPE, stderr=subprocess.PIPE, text=True, timeout=timeout)
     except subprocess.TimeoutExpired:
         raise Infra("harness %s timed out" % engine)
-    if p.returncode != 0:
-        raise Infra("harness %s failed rc=%d:\n%s\n%s" % (engine, p.returncode, p.stdout[-2000:], p.stderr[-4000:]))
-    files = sorted(f for f in (out_prefix + ".%d.ndjson" % i for i in range(w)) if os.path.exists(f))
+    return p
+
+
+def run_harness(engine, scen_file, out_prefix, workers=None, extra=(), timeout=1800, tags="verif", env=None):
+    """vrun <engine> -in scen.ndjson -out prefix -workers N  -> (trace files, summary).
+    If the harness PROCESS dies (fatal runtime error, out of memory, a call that never
+    returns), the scenarios that were running are re-executed one by one in fresh
+    processes; those that kill the process again on their own are listed in
+    summary["crashed"] (a reproducible crash of the code under test, to be reported by the
+    caller), are skipped, and the batch is run again."""
+    w = workers or WORKERS
+    crashed = []
+    for attempt in range(6):
+        p = _run_harness_once(engine, scen_file, out_prefix, w, extra, timeout, tags, env)
+        if p.returncode == 0:
+            break
+        if p.returncode in (2, 3):
+            raise Infra("harness %s failed rc=%d:\n%s\n%s" % (engine, p.returncode, p.stdout[-2000:], p.stderr[-4000:]))
+        # the process died: find the scenarios in flight
+        cands = set()
+        for i in range(w):
+            try:
+                with open(out_prefix + ".%d.cur" % i) as f:
+                    v = int(f.read().strip() or -1)
+                if v >= 0:
+                    cands.add(v)
+            except (OSError, ValueError):
+                pass
+        lines = open(scen_file).read().splitlines()
+        culprits = []
+        for c in sorted(cands):
+            one = scen_file + ".one"
+            with open(one, "w") as f:
+                f.write(lines[c] + "\n")
+            q = _run_harness_once(engine, one, out_prefix + ".one", 1, extra, 300, tags, env)
+            if q.returncode not in (0, 2, 3):
+                culprits.append((c, (q.stderr or "")[-600:]))
+        if not culprits:
+            if w > 1:
+                # nothing crashes alone: probably memory pressure from running in parallel; retry narrower
+                w = max(1, w // 4)
+                log("harness %s died (rc=%d), no single scenario reproduces it; retrying with %d workers" % (engine, p.returncode, w))
+                continue
+            raise Infra("harness %s died (rc=%d) but no single scenario reproduces it:\n%s" % (engine, p.returncode, p.stderr[-3000:]))
+        for c, why in culprits:
+            log("scenario %d kills the harness process on its own: %s" % (c, why.strip().splitlines()[0] if why.strip() else "killed"))
+            crashed.append({"t": c, "why": why})
+            lines[c] = '{"skip":true}'
+        with open(scen_file, "w") as f:
+            f.write("\n".join(lines) + "\n")
+    else:
+        raise Infra("harness %s keeps dying" % engine)
+    files = sorted(f for f in (out_prefix + ".%d.ndjson" % i for i in range(workers or WORKERS)) if os.path.exists(f))
     summary = {}
     for line in p.stdout.splitlines():
         if line.startswith("SUMMARY "):
             summary = json.loads(line[8:])
+    summary["crashed"] = crashed
     return files, summary
 
 
